@@ -45,6 +45,9 @@ type Ptr struct {
 	ro bool // points into the shared, frozen initialisation template
 	// for pointers to array values, elem addressing uses the Array in *p.
 	tag *ptrTag // optional identity info (for unsafe.Pointer conversions etc.)
+	// symbolic element pointer: &symArr[symIdx] with scalar cells (p == nil)
+	symArr []Value
+	symIdx *Term
 }
 
 type ptrTag struct{ typ types.Type }
